@@ -9,7 +9,7 @@ EXPLANATION = (
     "'anything left => Replaced') reads through that held write transaction, not a fresh snapshot; the append "
     "happens before the commit and the indexed offset is the appended one; the non-atomic grow-and-retry "
     "appender is entered only while the writer lock is held; the dependency takes append_lock before the map "
-    "lock in both append and resize; every public read API of Store reaches no write/file/map effect. "
+    "lock in both append and resize; every public read API of Store reaches no write/file/map/shared-memory effect; a query opens exactly one read transaction, outside every loop, and nothing it reaches opens another. "
     "Linearizability, exactly-one-winner and reader-prefix consistency themselves are not decided; LMDB MVCC is trusted.")
 ASSUMPTIONS = ["LMDB allows one write transaction at a time and gives readers a snapshot (MVCC)"]
 
@@ -24,3 +24,4 @@ def run(ctx):
     storage.appender_callers(ctx, s)
     storage.lock_order(ctx, s)
     storage.readers_are_pure(ctx, s)
+    storage.one_snapshot(ctx, s)
